@@ -69,6 +69,10 @@ let print_api_state op (a : api) =
 (* L2 layer (C06): per handle, the concrete column store (Store.Matrix) replayed next to the reference model.
    L2ok s = tracked; L2bad why = the model left the domain (Fault / Rej on a call the reference model accepted) *)
 type l2state = L2ok of lstore | L2bad of string
+(* which matrix_addrow the L2 model runs: QSX_L2_ADDROW=fixed (the repaired loop, notes/repo_patches/matrix_addrow_repeated_column.diff)
+   or orig (the loop as found: Fault where the library calls exit(1)); checks/store_common.py probes the library and sets it.
+   The op `L2VARIANT fixed|orig` overrides it inside a script. *)
+let l2_fixed = ref (match Sys.getenv_opt "QSX_L2_ADDROW" with Some "orig" -> false | _ -> true)
 let l2t : (int, l2state) Hashtbl.t = Hashtbl.create 16
 let l2_set h (r : lstore res) what = Hashtbl.replace l2t h (match r with Ok s -> L2ok s | Rej -> L2bad ("REJ " ^ what) | Fault -> L2bad ("FAULT " ^ what))
 let put_line tag (body : string) n full =
@@ -102,7 +106,7 @@ let on op h (o : pop) =
   let (s', r) = sstep !sentinel !st (SOn (nat_of_int h, o)) in
   st := s';
   (match r, p0, Hashtbl.find_opt l2t h with
-   | ROk _, Some p, Some (L2ok l) -> l2_set h (l2_step_c p l o) op
+   | ROk _, Some p, Some (L2ok l) -> l2_set h (l2_step_c !l2_fixed p l o) op
    | _ -> ());
   (match Hashtbl.find_opt ast h with
    | Some a -> let (a', _) = api_edit !sentinel a o in Hashtbl.replace ast h a'
@@ -118,6 +122,7 @@ let exec (toks : string list) =
       match op with
       | "CASE" -> print_endline ("CASE " ^ (match rest with t :: _ -> t | [] -> "?"))
       | "ECHO" -> print_endline (String.concat " " toks)
+      | "L2VARIANT" -> l2_fixed := (tk () <> "orig"); Printf.printf "R L2VARIANT OK rv=0 %s\n" (if !l2_fixed then "fixed" else "orig")
       | "RESET" -> st := []; Hashtbl.reset ast; Hashtbl.reset l2t; print_endline "R RESET OK rv=0"
       | "CREATE" ->
         let h = handle (tk ()) in let _nm = tk () in let c = objsense_code (tk ()) in
@@ -131,14 +136,35 @@ let exec (toks : string list) =
           ((((o, l), u), nm), e)) in
         let rows = tk_list nr (fun () -> let nm = name_opt (tk ()) in let s = code_char (tk ()) in let rhs = tk_q () in ((nm, s), rhs)) in
         let (s', r) = sstep !sentinel !st (SLoad (nat_of_int h, c, cols, rows)) in st := s'; api_reset h;
-        (match r with ROk _ -> l2_set h (l2_load_c cols rows) op | _ -> Hashtbl.remove l2t h);
+        (match r with ROk _ -> l2_set h (l2_load_c !l2_fixed cols rows) op | _ -> Hashtbl.remove l2t h);
         print_result op r
+      | "READ" ->
+        (* READ h <file> <LP|MPS> <MIN|MAX> nc nr cols rows: the library reads the file; the model is told what the file says -
+           per column its raw list in the order of raw->cols[i] (duplicates of one (row, column) pair not merged), rows as in LOAD.
+           Reference problem: QSload_prob-style from the merged columns (merge_col of the extracted model);
+           L2: lib_load_raw (Store.RawLoad: buildMatrix + ILLlp_add_logicals) *)
+        let h = handle (tk ()) in let _fn = tk () in let _ft = tk () in
+        (match !cur with
+         | [] -> Hashtbl.remove l2t h; api_reset h; print_endline "R READ SKIP nomodel"
+         | _ ->
+           let c = objsense_code (tk ()) in
+           let nc = tk_int () in let nr = tk_int () in
+           if nc < 0 || nr < 0 then raise Bad_args;
+           let raw = tk_list nc (fun () ->
+             let nm = name_opt (tk ()) in let o = tk_q () in let l = tk_q () in let u = tk_q () in let e = tk_ent () in
+             ((((o, l), u), nm), e)) in
+           let rows = tk_list nr (fun () -> let nm = name_opt (tk ()) in let s = code_char (tk ()) in let rhs = tk_q () in ((nm, s), rhs)) in
+           let rcols = List.map (fun (_, e) -> nat_ents e) raw in
+           let cols = List.map2 (fun (a, _) rc -> (a, List.map (fun (i, v) -> (z_of_int (int_of_nat i), v)) (merge_col_c rc))) raw rcols in
+           let (s', r) = sstep !sentinel !st (SLoad (nat_of_int h, c, cols, rows)) in st := s'; api_reset h;
+           (match r with ROk _ -> l2_set h (lib_load_raw_c rcols (List.map (fun ((_, sn), _) -> coef_of_sense sn) rows)) op | _ -> Hashtbl.remove l2t h);
+           print_result op r)
       | "FREE" -> let h = handle (tk ()) in let (s', r) = sstep !sentinel !st (SFree (nat_of_int h)) in st := s'; api_reset h; Hashtbl.remove l2t h; print_result op r
       | "COPY" ->
         let h = handle (tk ()) in let h2 = handle (tk ()) in
         let (s', r) = sstep !sentinel !st (SCopy (nat_of_int h, nat_of_int h2)) in
         st := s'; (if h <> h2 then api_reset h2);
-        (match r, get_h !st (nat_of_int h) with ROk _, Some p when h <> h2 -> l2_set h2 (l2_copy_c p) op | _ -> ());
+        (match r, get_h !st (nat_of_int h) with ROk _, Some p when h <> h2 -> l2_set h2 (l2_copy_c !l2_fixed p) op | _ -> ());
         (match r with RSkip when h = h2 -> print_endline "R COPY SKIP samehandle" | _ -> print_result op r)
       | "NEWCOL" ->
         let h = handle (tk ()) in let o = tk_q () in let l = tk_q () in let u = tk_q () in let nm = name_opt (tk ()) in
